@@ -340,6 +340,10 @@ func (w *fetchWorld) RoundTrip(req *http.Request) (*http.Response, error) {
 		return reply(404, []byte("not found"))
 	case "500":
 		return reply(500, a.item.der) // a valid CRL under a failing status is still a failure
+	case "201", "203", "206":
+		var st int
+		fmt.Sscan(a.kind, &st)
+		return reply(st, a.item.der) // likewise under any status other than 200
 	case "transport-error":
 		return nil, errors.New("scripted transport failure")
 	case "garbage":
@@ -635,7 +639,7 @@ func genC18(r *Runner) {
 		}
 		// base URL faults and odd URLs
 		for _, u := range []string{"", urlBase, "https://crl.example/base.crl", "ftp://crl.example/base.crl", "crl.example/base.crl", urlBad, urlUpper, " http://crl.example/base.crl", "http://crl.example/\x7f"} {
-			for _, k := range []string{"crl", "404", "500", "transport-error", "garbage", "empty", "body-error", "truncated"} {
+			for _, k := range []string{"crl", "404", "500", "201", "203", "206", "transport-error", "garbage", "empty", "body-error", "truncated"} {
 				u, k := u, k
 				init := func(w *fetchWorld) {
 					a := srvAns{kind: k, item: pool.get(1, "fresh", absent)}
